@@ -347,7 +347,7 @@ def run_box(prop, tier, w, vh, seed):
     r = vlib.run_tlc(w, "MC_BoxT.tla", "MC_BoxT.cfg", workers=1, timeout=600)
     if re.search(r'TRACE_REJECTED_AT_LINE', r.out):
         raise vlib.Infra("Box.tla could not consume the trace: %s" % r.out[-800:])
-    hits = [(m.group(1), int(m.group(2))) for m in re.finditer(r'"CLAUSE_VIOLATED", "(\\w+)", "LINE", (\\d+)', r.out)]
+    hits = [(m.group(1), int(m.group(2))) for m in re.finditer(r'"CLAUSE_VIOLATED", "(\w+)", "LINE", (\d+)', r.out)]
     if r.rc != 0 and not hits:
         raise vlib.Infra("Box validation failed: %s" % (r.error or r.out[-1200:]))
     for clause, line in hits:
